@@ -29,10 +29,14 @@ ASSUMPTIONS = [
     "sinks obey the io.Writer contract (n < len(p) only with a non-nil error): copyBufferLog ignores the count (hypothesis wok of the prefix/accounting theorems; quic-go streams and net.Conn do)",
     "QUIC stream reliability/ordering and QStream.Close = CancelRead + FIN delivering already written bytes (quic-go, not modelled)",
     "the TCPResponse codec round-trips (Section hypothesis resp_roundtrip of the client clause; property C04)",
+    "ReadTCPRequest takes exactly the request frame off the stream (hypothesis `exact` of the two client-payload theorems; property C04); "
+    "C06_request_reader_must_not_read_ahead shows it is needed, and the request-phase cases of level (a) and the fast-open cases of "
+    "level (b) observe it on every run",
     "no request hook intercepts the connection (as in the property text); EventLogger/TraceStream calls are not modelled",
 ]
 TRUSTED = ["modelled rather than verified: core/server/copy.go, the hook-less path of handleTCPRequest (server.go:271-343), client.go TCP()/tcpConn.Read "
-           "(hand transcription in coq/model/C06_Relay.v); level (a) transcribes the three teardown lines of server.go:338-342 in the harness; "
+           "(hand transcription in coq/model/C06_Relay.v); level (a) transcribes the three teardown lines of server.go:338-342 and the two request-phase calls (server.go:246 quicvarint.Read of "
+           "the frame type, server.go:276 protocol.ReadTCPRequest; the callee is the real one) in the harness; "
            "level (b) runs the real handleTCPRequest/client.TCP end to end but is judged by the harness verdict only (its runs are not replayed "
            "against the LTS)",
            "level (a) sources/sinks/logger are in-memory fakes inside a testing/synctest bubble; written chunks above 2 KiB are compared with the "
@@ -321,7 +325,11 @@ def run(ctx):
         if ib:
             ok2, o2, _, log2 = orig(ctx_, GO_E2E, [cases[i] for i in ib], tag=tag + "_e2e", timeout=timeout, race=race)
         outs = [None] * len(cases)
-        if len(o1) == len(ia) and len(o2) == len(ib):
+        if len(o1) == len(ia):
+            if len(o2) != len(ib):
+                # level (b) did not finish (reported as a broken tie through ok2): keep what level (a) found
+                ok2 = False
+                o2 = list(o2) + [{"k": "e2e", "ok": True, "why": "", "skip": "end-to-end harness did not finish"}] * (len(ib) - len(o2))
             for i, o in zip(ia, o1):
                 outs[i] = o
             for i, o in zip(ib, o2):
@@ -358,7 +366,8 @@ LEVEL_TEXT = ("Machine-checked Coq theorems over a labelled transition system tr
               "returns nil; every Write is directly preceded by the Read of that chunk and the approving LogTraffic of its size in the right argument "
               "position; approved = forwarded + chunk in flight; after a veto the loop only returns errDisconnect; the QUIC connection is closed iff "
               "the first returned error is errDisconnect; a dial error writes the failure response with the server's message and relays nothing; "
-              "client view (fast open on/off) over an abstract response codec. The model is tied to /repo on every run by the regenerated buffer size "
+              "client view (fast open on/off) over an abstract response codec; over an abstract request codec that consumes exactly its frame, "
+              "the target holds a prefix of the payload the client wrote behind the request and all of it when Up returns nil. The model is tied to /repo on every run by the regenerated buffer size "
               "and by replaying recorded boundary logs of the real code against the LTS in the kernel (vm_compute).")
 LEVEL_NOTE = ("Trusted: Coq kernel + vm_compute; hand-written model (tie is sampled: recorded boundary logs are replayed, not all schedules); python/Go glue. "
               "No axioms. The clause 'a veto closes that user's connection' is proved only when the vetoed loop is the first to report "
